@@ -43,6 +43,8 @@ func checkC10(w *World, r *Report) {
 	ruleLoopVarCapture(w, r, "C10.LOOPVAR")
 	ruleThreadSafeAverage(w, r, "C10.TSMA")
 	ruleNoCallerAlias(w, r, "C10")
+	// an operation that hands the caller's memory to the actor returns only after the actor's reply
+	checkReplyProtocol(w, r, "C10")
 }
 
 // ruleHandover: on every exit path of the bar loop nothing touches the bar state after it was
@@ -379,8 +381,68 @@ func checkDecoratorState(w *World, r *Report, rule string) {
 	bar := w.barLoop()
 	allowed := map[string]bool{"go:" + fnShort(bar): true}
 	for _, name := range ri.Order {
-		if strings.HasPrefix(name, "go:(*mpb.Bar).render") || strings.Contains(name, "Ewma") {
+		if strings.HasPrefix(name, "go:(*mpb.Bar).render") {
 			allowed[name] = true
+		}
+	}
+	// fork-joined helpers of an allowed role: every `go` site that starts the role lies in a function that
+	// runs only in allowed roles, and the started function signals a wait group (the pairing of that
+	// group's Add / Done / Wait is L-WG's business); closed to a fixpoint, so a helper that starts the
+	// goroutines on behalf of an operation closure is covered like the closure itself
+	callsDone := func(fn *ssa.Function) bool {
+		for _, b := range fn.Blocks {
+			for _, in := range b.Instrs {
+				var cc *ssa.CallCommon
+				switch x := in.(type) {
+				case *ssa.Call:
+					cc = &x.Call
+				case *ssa.Defer:
+					cc = &x.Call
+				}
+				if cc != nil {
+					if sc := cc.StaticCallee(); sc != nil && sc.String() == "(*sync.WaitGroup).Done" {
+						return true
+					}
+				}
+			}
+		}
+		return false
+	}
+	for changed := true; changed; {
+		changed = false
+		for _, name := range ri.Order {
+			if allowed[name] || !strings.HasPrefix(name, "go:") {
+				continue
+			}
+			ok, sites := true, 0
+			for _, g := range ri.GoSites {
+				starts := false
+				for _, t := range w.goTargets(g) {
+					if "go:"+fnShort(t) == name {
+						starts = true
+						if !callsDone(t) {
+							ok = false
+						}
+					}
+				}
+				if !starts {
+					continue
+				}
+				sites++
+				spawnerRoles := ri.RolesOf(g.Parent())
+				if len(spawnerRoles) == 0 {
+					ok = false
+				}
+				for _, ro := range spawnerRoles {
+					if !allowed[ro] {
+						ok = false
+					}
+				}
+			}
+			if ok && sites > 0 {
+				allowed[name] = true
+				changed = true
+			}
 		}
 	}
 	n := 0
